@@ -11,6 +11,16 @@ TB = ("Trusted: Coq 8.16.1 kernel and vm_compute; the axioms printed by "
       "harness (canonicalisation, error-kind mapping). ")
 
 CLAIMS = {
+ "C12": dict(
+  technique="Coq proof over a byte-level model of the hash pre-image (induction, cancellation, prefix-free codes); byte-exact correspondence with the wrapped hashlib.md5 argument",
+  text="Theorems in coq/Props/C12.v about the md5 pre-image computed by a model of obj2bytes/_hash over the FP_DEFAULT key order regenerated on every run: "
+       "tuple/list, bool/int/float and dict-insertion-order invariance (for all values), the two documented don't-cares, and for EVERY other key that a change of "
+       "that key changes the pre-image exactly when its contribution encodes differently (keys_covered + sensitivity, by prefix/suffix cancellation); data sensitivity; "
+       "injectivity on step lists (prefix-free identifiers). The full sensitivity statement for structured values is REFUTED by a kernel-checked witness (known finding "
+       "C12/list-join-collision) and replaced by the proved single-element statement. Model tied to the code byte for byte on random complete settings.",
+  note=TB + "Outside the theorems: md5 collision freedom; CPython's str(float) (carried as text); numpy tobytes; cross-process determinism is exercised by subprocess runs only. "
+       "Not proved in Coq (correspondence + API search only): sensitivity for the two keys hashed twice (preprocessing, preprocessing_options) and for flipping optimal_fit_edelta.",
+  ref="6/C12"),
  "C14": dict(
   technique="Coq proof: exhaustive vm_compute over a proved-complete enumeration + unbounded induction; exhaustive model/code correspondence",
   text="Theorems in coq/Props/C14.v over the step table regenerated from nanite.preproc on every run: "
